@@ -841,3 +841,96 @@ package k8s
 //@   loop 1:
 //@     invariant reqs: ruleRequirements == reqsOf(valof(ruleSelector)) && repRequirements == reqsOf(valof(repSelector)) && len(ruleRequirements) == len(repRequirements)
 //@     invariant agree: forall i int :: {ruleRequirements[i]} (0 <= i && i <= rangeindex) ==> normReq(ruleRequirements[i]) == normReq(repRequirements[i])
+
+// ---------------------------------------------------------------------------------------------
+// ANP subject (C02): the subject selects pods only, by namespace labels or by namespace and pod labels; the policy counts in a
+// direction only if it has rules for it
+// ---------------------------------------------------------------------------------------------
+
+//@ fun anpSelects(anp *AdminNetworkPolicy, p Peer, isIngress bool) bool = dyntype(p, *PodPeer) && (if isIngress then len(anp.Spec.Ingress) > 0 else len(anp.Spec.Egress) > 0)
+//@     && anpFieldsMatch(anp.Spec.Subject.Namespaces, anp.Spec.Subject.Pods, p)
+//@ func subjectSelectsPeer
+//@   requires realPeer(p)
+//@   modifies *
+//@   ensures [C02,C19] onefield: ((anpSubject.Namespaces == nil) == (anpSubject.Pods == nil)) ==> res1 != nil
+//@   ensures [C02] def: res1 == nil ==> res0 == anpFieldsMatch(anpSubject.Namespaces, anpSubject.Pods, p)
+//@ func (*AdminNetworkPolicy).Selects
+//@   requires anp != nil && realPeer(p)
+//@   modifies *
+//@   ensures [C02] def: res1 == nil ==> res0 == anpSelects(anp, p, isIngress)
+
+// ---------------------------------------------------------------------------------------------
+// The BANP: same rule order semantics (Pass is not a BANP action: a capturing Pass rule is an error)
+// ---------------------------------------------------------------------------------------------
+
+// BANP: rule k captures (q, n) between the peers; it is the first one that does
+//@ fun banpIngCap(banp *BaselineAdminNetworkPolicy, k int, src Peer, dst Peer, q string, n int) bool =
+//@     (exists i int :: {banp.Spec.Ingress[k].From[i]} 0 <= i && i < len(banp.Spec.Ingress[k].From) && anpFieldsMatch(banp.Spec.Ingress[k].From[i].Namespaces, banp.Spec.Ingress[k].From[i].Pods, src))
+//@     && anpPortsPts(banp.Spec.Ingress[k].Ports, dst, q, n)
+//@ fun banpIngFirst(banp *BaselineAdminNetworkPolicy, k int, src Peer, dst Peer, q string, n int) bool = banpIngCap(banp, k, src, dst, q, n)
+//@     && (forall j int :: {banp.Spec.Ingress[j]} (0 <= j && j < k) ==> !banpIngCap(banp, j, src, dst, q, n))
+//@ pred banpIngOK(banp *BaselineAdminNetworkPolicy) = banp != nil && (forall k int :: {banp.Spec.Ingress[k]} (0 <= k && k < len(banp.Spec.Ingress)) ==> validAPs(banp.Spec.Ingress[k].Ports))
+
+// the verdict sets after the first m rules: a point is in the set of the action of the first rule that captures it
+//@ pred banpIngVerdictA(pc *PolicyConnections, banp *BaselineAdminNetworkPolicy, m int, src Peer, dst Peer) = forall q v1.Protocol, n int :: {iset(pc.AllowedConns.AllowedProtocols[q].Ports)[n]}
+//@     pts(pc.AllowedConns, q, n) == (exists k int :: {banp.Spec.Ingress[k]} 0 <= k && k < m && banp.Spec.Ingress[k].Action == "Allow" && banpIngFirst(banp, k, src, dst, q, n))
+//@ pred banpIngVerdictD(pc *PolicyConnections, banp *BaselineAdminNetworkPolicy, m int, src Peer, dst Peer) = forall q v1.Protocol, n int :: {iset(pc.DeniedConns.AllowedProtocols[q].Ports)[n]}
+//@     pts(pc.DeniedConns, q, n) == (exists k int :: {banp.Spec.Ingress[k]} 0 <= k && k < m && banp.Spec.Ingress[k].Action == "Deny" && banpIngFirst(banp, k, src, dst, q, n))
+//@ pred banpIngVerdictP(pc *PolicyConnections, banp *BaselineAdminNetworkPolicy, m int, src Peer, dst Peer) = forall q v1.Protocol, n int :: {iset(pc.PassConns.AllowedProtocols[q].Ports)[n]}
+//@     pts(pc.PassConns, q, n) == (exists k int :: {banp.Spec.Ingress[k]} 0 <= k && k < m && banp.Spec.Ingress[k].Action == "Pass" && banpIngFirst(banp, k, src, dst, q, n))
+//@ pred banpIngVerdicts(pc *PolicyConnections, banp *BaselineAdminNetworkPolicy, m int, src Peer, dst Peer) = banpIngVerdictA(pc, banp, m, src, dst) && banpIngVerdictD(pc, banp, m, src, dst) && banpIngVerdictP(pc, banp, m, src, dst)
+
+//@ func (*BaselineAdminNetworkPolicy).GetIngressPolicyConns
+//@   hide anpFieldsMatch, anpPortsPts
+//@   hint loop1.preserve.firstA: inv.firstA, inv.firstD, inv.firstP, inv.covered, call2.applied, call2.valid
+//@   hint loop1.preserve.firstD: inv.firstA, inv.firstD, inv.firstP, inv.covered, call2.applied, call2.valid
+//@   hint loop1.preserve.firstP: inv.firstA, inv.firstD, inv.firstP, inv.covered, call2.applied, call2.valid
+//@   hint loop1.preserve.covered: inv.covered, call2.applied, call2.valid
+//@   requires banpIngOK(banp) && realPeer(src) && realDst(dst) && dyntype(dst, *PodPeer)
+//@   modifies *
+//@   ensures [C02] wf: res1 == nil ==> (wfPC(res0) && disjPC(res0))
+//@   ensures [C02] firstwins: res1 == nil ==> banpIngVerdicts(res0, banp, len(banp.Spec.Ingress), src, dst)
+//@   loop 1 cut:
+//@     invariant wf: wfPC(res) && disjPC(res) && banpIngOK(banp)
+//@     invariant firstA: banpIngVerdictA(res, banp, rangeindex + 1, src, dst)
+//@     invariant firstD: banpIngVerdictD(res, banp, rangeindex + 1, src, dst)
+//@     invariant firstP: banpIngVerdictP(res, banp, rangeindex + 1, src, dst)
+//@     invariant covered: forall q v1.Protocol, n int :: {iset(res.AllowedConns.AllowedProtocols[q].Ports)[n]} {iset(res.DeniedConns.AllowedProtocols[q].Ports)[n]} {iset(res.PassConns.AllowedProtocols[q].Ports)[n]}
+//@         (!pts(res.AllowedConns, q, n) && !pts(res.DeniedConns, q, n) && !pts(res.PassConns, q, n)) ==>
+//@         (forall j int :: {banp.Spec.Ingress[j]} (0 <= j && j <= rangeindex) ==> !banpIngCap(banp, j, src, dst, q, n))
+
+// BANP egress rules (the other end and the port owner are both dst)
+//@ fun banpEgCap(banp *BaselineAdminNetworkPolicy, k int, dst Peer, q string, n int) bool =
+//@     (exists i int :: {banp.Spec.Egress[k].To[i]} 0 <= i && i < len(banp.Spec.Egress[k].To) && anpFieldsMatch(banp.Spec.Egress[k].To[i].Namespaces, banp.Spec.Egress[k].To[i].Pods, dst))
+//@     && anpPortsPts(banp.Spec.Egress[k].Ports, dst, q, n)
+//@ fun banpEgFirst(banp *BaselineAdminNetworkPolicy, k int, dst Peer, q string, n int) bool = banpEgCap(banp, k, dst, q, n)
+//@     && (forall j int :: {banp.Spec.Egress[j]} (0 <= j && j < k) ==> !banpEgCap(banp, j, dst, q, n))
+//@ pred banpEgOK(banp *BaselineAdminNetworkPolicy) = banp != nil && (forall k int :: {banp.Spec.Egress[k]} (0 <= k && k < len(banp.Spec.Egress)) ==> validAPs(banp.Spec.Egress[k].Ports))
+
+//@ pred banpEgVerdictA(pc *PolicyConnections, banp *BaselineAdminNetworkPolicy, m int, dst Peer) = forall q v1.Protocol, n int :: {iset(pc.AllowedConns.AllowedProtocols[q].Ports)[n]}
+//@     pts(pc.AllowedConns, q, n) == (exists k int :: {banp.Spec.Egress[k]} 0 <= k && k < m && banp.Spec.Egress[k].Action == "Allow" && banpEgFirst(banp, k, dst, q, n))
+//@ pred banpEgVerdictD(pc *PolicyConnections, banp *BaselineAdminNetworkPolicy, m int, dst Peer) = forall q v1.Protocol, n int :: {iset(pc.DeniedConns.AllowedProtocols[q].Ports)[n]}
+//@     pts(pc.DeniedConns, q, n) == (exists k int :: {banp.Spec.Egress[k]} 0 <= k && k < m && banp.Spec.Egress[k].Action == "Deny" && banpEgFirst(banp, k, dst, q, n))
+//@ pred banpEgVerdictP(pc *PolicyConnections, banp *BaselineAdminNetworkPolicy, m int, dst Peer) = forall q v1.Protocol, n int :: {iset(pc.PassConns.AllowedProtocols[q].Ports)[n]}
+//@     pts(pc.PassConns, q, n) == (exists k int :: {banp.Spec.Egress[k]} 0 <= k && k < m && banp.Spec.Egress[k].Action == "Pass" && banpEgFirst(banp, k, dst, q, n))
+//@ pred banpEgVerdicts(pc *PolicyConnections, banp *BaselineAdminNetworkPolicy, m int, dst Peer) = banpEgVerdictA(pc, banp, m, dst) && banpEgVerdictD(pc, banp, m, dst) && banpEgVerdictP(pc, banp, m, dst)
+
+//@ func (*BaselineAdminNetworkPolicy).GetEgressPolicyConns
+//@   hide anpFieldsMatch, anpPortsPts
+//@   hint loop1.preserve.firstA: inv.firstA, inv.firstD, inv.firstP, inv.covered, call2.applied, call2.valid
+//@   hint loop1.preserve.firstD: inv.firstA, inv.firstD, inv.firstP, inv.covered, call2.applied, call2.valid
+//@   hint loop1.preserve.firstP: inv.firstA, inv.firstD, inv.firstP, inv.covered, call2.applied, call2.valid
+//@   hint loop1.preserve.covered: inv.covered, call2.applied, call2.valid
+//@   requires banpEgOK(banp) && realPeer(dst) && realDst(dst) && dyntype(dst, *PodPeer)
+//@   modifies *
+//@   ensures [C02] wf: res1 == nil ==> (wfPC(res0) && disjPC(res0))
+//@   ensures [C02] firstwins: res1 == nil ==> banpEgVerdicts(res0, banp, len(banp.Spec.Egress), dst)
+//@   loop 1 cut:
+//@     invariant wf: wfPC(res) && disjPC(res) && banpEgOK(banp)
+//@     invariant firstA: banpEgVerdictA(res, banp, rangeindex + 1, dst)
+//@     invariant firstD: banpEgVerdictD(res, banp, rangeindex + 1, dst)
+//@     invariant firstP: banpEgVerdictP(res, banp, rangeindex + 1, dst)
+//@     invariant covered: forall q v1.Protocol, n int :: {iset(res.AllowedConns.AllowedProtocols[q].Ports)[n]} {iset(res.DeniedConns.AllowedProtocols[q].Ports)[n]} {iset(res.PassConns.AllowedProtocols[q].Ports)[n]}
+//@         (!pts(res.AllowedConns, q, n) && !pts(res.DeniedConns, q, n) && !pts(res.PassConns, q, n)) ==>
+//@         (forall j int :: {banp.Spec.Egress[j]} (0 <= j && j <= rangeindex) ==> !banpEgCap(banp, j, dst, q, n))
+
